@@ -71,9 +71,10 @@ CLAIMED["C06"] = {
 CLAIMED["C05"] = {
     "text": "Theorems for ALL depths and indices (not a sample): NUNIQ decode∘encode = id and encode∘decode = id on codes >= 4, NUNIQ order = (depth, idx) "
             "lexicographic, z-order-uniq decode∘encode = id for every quantity/width/legal depth, width widening/narrowing round trip and monotonicity, and the "
-            "one-step theorem of the greedy cell view (legal depth, aligned cell, exactly the head of the range, progress). Partial: list-level statements "
-            "(cell view = the set / normal form, cell ranges, flat cells, NUNIQ range iterators) are decided by the correspondence check (exact agreement of "
-            "the transliterated models with the code, plus identity round trips) and not yet by a theorem.",
+            "one-step theorem of the greedy cell view (legal depth, aligned cell, exactly the head of the range, progress); list level, for EVERY valid MOC: ranges -> cells -> ranges = id "
+            "(cells_roundtrip), ranges -> cells -> cell ranges -> ranges = id (cellranges_roundtrip), both views cover exactly the MOC, the cell list is a normal form determined by the covered set "
+            "and the view is injective, flat cells = the depth-d cells inside the MOC, generic uniq decode∘encode = id for the three quantities. Partial: the NUNIQ range iterators are decided by the "
+            "correspondence check (transliterated model = code, plus identity round trips) only.",
     "design_ref": "DESIGN.md §4 C05, §10",
     "note": TB + "; log2 / trailing-zero specifications of the CPU instructions",
     "technique": "Lean 4 proof (arithmetic on codes) + differential correspondence",
